@@ -37,8 +37,9 @@ type Decl struct {
 	Name  string   `json:"name"`
 	Text  string   `json:"text"` // printed without any comment
 	Full  string   `json:"full"` // printed with its doc comment and inner comments
-	Doc   string   `json:"doc"`
-	Inner []string `json:"inner"`
+	Doc    string   `json:"doc"`
+	DocPos int      `json:"docpos"` // offset of the declaration's Doc comment group, -1 if none
+	Inner  []string `json:"inner"`
 }
 type NewFacts struct {
 	Params []string `json:"params"`
@@ -220,7 +221,7 @@ func describe(path string) *File {
 	}
 	owned := map[*ast.CommentGroup]bool{}
 	for i, d := range f.Decls {
-		dd := Decl{Pos: off(d.Pos()), End: off(d.End()), Inner: []string{}}
+		dd := Decl{Pos: off(d.Pos()), End: off(d.End()), Inner: []string{}, DocPos: -1}
 		var doc *ast.CommentGroup
 		switch v := d.(type) {
 		case *ast.GenDecl:
@@ -245,6 +246,7 @@ func describe(path string) *File {
 		}
 		if doc != nil {
 			dd.Doc = strings.TrimSpace(doc.Text())
+			dd.DocPos = off(doc.Pos())
 			owned[doc] = true
 		}
 		for _, cg := range f.Comments {
